@@ -951,14 +951,14 @@ static const yytype_int16 yyrline[] =
      900,   901,   902,   906,   907,   921,   925,  1021,  1069,  1130,
     1175,  1176,  1180,  1215,  1268,  1323,  1354,  1361,  1368,  1381,
     1392,  1403,  1414,  1425,  1436,  1447,  1458,  1473,  1489,  1501,
-    1576,  1614,  1518,  1743,  1766,  1778,  1806,  1825,  1848,  1896,
-    1903,  1910,  1909,  1956,  1955,  2006,  2014,  2022,  2030,  2038,
-    2046,  2054,  2058,  2066,  2067,  2092,  2112,  2140,  2214,  2246,
-    2264,  2275,  2318,  2334,  2354,  2364,  2363,  2372,  2386,  2387,
-    2392,  2402,  2417,  2416,  2429,  2430,  2435,  2468,  2493,  2549,
-    2556,  2562,  2568,  2578,  2582,  2590,  2602,  2616,  2623,  2630,
-    2655,  2667,  2679,  2691,  2706,  2718,  2733,  2778,  2799,  2834,
-    2869,  2903,  2933,  2955,  2965,  2975,  2985,  2995,  3015,  3035
+    1576,  1614,  1518,  1743,  1767,  1780,  1809,  1829,  1852,  1900,
+    1907,  1914,  1913,  1960,  1959,  2010,  2018,  2026,  2034,  2042,
+    2050,  2058,  2062,  2070,  2071,  2096,  2116,  2144,  2218,  2250,
+    2268,  2279,  2322,  2338,  2358,  2368,  2367,  2376,  2390,  2391,
+    2396,  2406,  2421,  2420,  2433,  2434,  2439,  2472,  2499,  2555,
+    2562,  2568,  2574,  2584,  2588,  2596,  2608,  2622,  2629,  2636,
+    2661,  2673,  2685,  2697,  2712,  2724,  2739,  2784,  2805,  2840,
+    2875,  2909,  2939,  2961,  2971,  2981,  2991,  3001,  3021,  3041
 };
 #endif
 
@@ -3737,31 +3737,33 @@ yyreduce:
           (yyval.expression).required_strings.count = 0;
         }
 
-        yr_parser_emit_with_arg(yyscanner, OP_OF, OF_STRING_SET, NULL, NULL);
+        fail_if_error(yr_parser_emit_with_arg(
+            yyscanner, OP_OF, OF_STRING_SET, NULL, NULL));
 
         (yyval.expression).type = EXPRESSION_TYPE_BOOLEAN;
       }
-#line 3745 "libyara/grammar.c"
+#line 3746 "libyara/grammar.c"
     break;
 
   case 94: /* expression: for_expression "<of>" rule_set  */
-#line 1767 "libyara/grammar.y"
+#line 1768 "libyara/grammar.y"
       {
         if ((yyvsp[-2].expression).type == EXPRESSION_TYPE_INTEGER && (yyvsp[-2].expression).value.integer > (yyvsp[0].integer))
         {
           yywarning(yyscanner,
             "expression always false - requesting %" PRId64 " of %" PRId64 ".", (yyvsp[-2].expression).value.integer, (yyvsp[0].integer));
         }
-        yr_parser_emit_with_arg(yyscanner, OP_OF, OF_RULE_SET, NULL, NULL);
+        fail_if_error(yr_parser_emit_with_arg(
+            yyscanner, OP_OF, OF_RULE_SET, NULL, NULL));
 
         (yyval.expression).type = EXPRESSION_TYPE_BOOLEAN;
         (yyval.expression).required_strings.count = 0;
       }
-#line 3761 "libyara/grammar.c"
+#line 3763 "libyara/grammar.c"
     break;
 
   case 95: /* expression: primary_expression '%' "<of>" string_set  */
-#line 1779 "libyara/grammar.y"
+#line 1781 "libyara/grammar.y"
       {
         check_type((yyvsp[-3].expression), EXPRESSION_TYPE_INTEGER, "%");
 
@@ -3787,13 +3789,14 @@ yyreduce:
           (yyval.expression).required_strings.count = 0;
         }
 
-        yr_parser_emit_with_arg(yyscanner, OP_OF_PERCENT, OF_STRING_SET, NULL, NULL);
+        fail_if_error(yr_parser_emit_with_arg(
+            yyscanner, OP_OF_PERCENT, OF_STRING_SET, NULL, NULL));
       }
-#line 3793 "libyara/grammar.c"
+#line 3796 "libyara/grammar.c"
     break;
 
   case 96: /* expression: primary_expression '%' "<of>" rule_set  */
-#line 1807 "libyara/grammar.y"
+#line 1810 "libyara/grammar.y"
       {
         check_type((yyvsp[-3].expression), EXPRESSION_TYPE_INTEGER, "%");
 
@@ -3810,13 +3813,14 @@ yyreduce:
           fail_with_error(ERROR_INVALID_PERCENTAGE);
         }
 
-        yr_parser_emit_with_arg(yyscanner, OP_OF_PERCENT, OF_RULE_SET, NULL, NULL);
+        fail_if_error(yr_parser_emit_with_arg(
+            yyscanner, OP_OF_PERCENT, OF_RULE_SET, NULL, NULL));
       }
-#line 3816 "libyara/grammar.c"
+#line 3820 "libyara/grammar.c"
     break;
 
   case 97: /* expression: for_expression "<of>" string_set "<in>" range  */
-#line 1826 "libyara/grammar.y"
+#line 1830 "libyara/grammar.y"
       {
         if ((yyvsp[-4].expression).type == EXPRESSION_TYPE_INTEGER && (yyvsp[-4].expression).value.integer > (yyvsp[-2].integer))
         {
@@ -3835,15 +3839,15 @@ yyreduce:
           (yyval.expression).required_strings.count = 0;
         }
 
-        yr_parser_emit(yyscanner, OP_OF_FOUND_IN, NULL);
+        fail_if_error(yr_parser_emit(yyscanner, OP_OF_FOUND_IN, NULL));
 
         (yyval.expression).type = EXPRESSION_TYPE_BOOLEAN;
       }
-#line 3843 "libyara/grammar.c"
+#line 3847 "libyara/grammar.c"
     break;
 
   case 98: /* expression: for_expression "<of>" string_set "<at>" primary_expression  */
-#line 1849 "libyara/grammar.y"
+#line 1853 "libyara/grammar.y"
       {
         if ((yyvsp[0].expression).type != EXPRESSION_TYPE_INTEGER)
         {
@@ -3887,36 +3891,36 @@ yyreduce:
           (yyval.expression).required_strings.count = 0;
         }
 
-        yr_parser_emit(yyscanner, OP_OF_FOUND_AT, NULL);
+        fail_if_error(yr_parser_emit(yyscanner, OP_OF_FOUND_AT, NULL));
 
         (yyval.expression).type = EXPRESSION_TYPE_BOOLEAN;
       }
-#line 3895 "libyara/grammar.c"
+#line 3899 "libyara/grammar.c"
     break;
 
   case 99: /* expression: "<not>" boolean_expression  */
-#line 1897 "libyara/grammar.y"
+#line 1901 "libyara/grammar.y"
       {
-        yr_parser_emit(yyscanner, OP_NOT, NULL);
+        fail_if_error(yr_parser_emit(yyscanner, OP_NOT, NULL));
 
         (yyval.expression).type = EXPRESSION_TYPE_BOOLEAN;
         (yyval.expression).required_strings.count = 0;
       }
-#line 3906 "libyara/grammar.c"
+#line 3910 "libyara/grammar.c"
     break;
 
   case 100: /* expression: "<defined>" boolean_expression  */
-#line 1904 "libyara/grammar.y"
+#line 1908 "libyara/grammar.y"
       {
-        yr_parser_emit(yyscanner, OP_DEFINED, NULL);
+        fail_if_error(yr_parser_emit(yyscanner, OP_DEFINED, NULL));
         (yyval.expression).type = EXPRESSION_TYPE_BOOLEAN;
         (yyval.expression).required_strings.count = 0;
       }
-#line 3916 "libyara/grammar.c"
+#line 3920 "libyara/grammar.c"
     break;
 
   case 101: /* $@8: %empty  */
-#line 1910 "libyara/grammar.y"
+#line 1914 "libyara/grammar.y"
       {
         YR_FIXUP* fixup;
         YR_ARENA_REF jmp_offset_ref;
@@ -3938,11 +3942,11 @@ yyreduce:
         fixup->next = compiler->fixup_stack_head;
         compiler->fixup_stack_head = fixup;
       }
-#line 3942 "libyara/grammar.c"
+#line 3946 "libyara/grammar.c"
     break;
 
   case 102: /* expression: boolean_expression "<and>" $@8 boolean_expression  */
-#line 1932 "libyara/grammar.y"
+#line 1936 "libyara/grammar.y"
       {
         YR_FIXUP* fixup;
 
@@ -3966,11 +3970,11 @@ yyreduce:
         (yyval.expression).type = EXPRESSION_TYPE_BOOLEAN;
         (yyval.expression).required_strings.count = (yyvsp[0].expression).required_strings.count + (yyvsp[-3].expression).required_strings.count;
       }
-#line 3970 "libyara/grammar.c"
+#line 3974 "libyara/grammar.c"
     break;
 
   case 103: /* $@9: %empty  */
-#line 1956 "libyara/grammar.y"
+#line 1960 "libyara/grammar.y"
       {
         YR_FIXUP* fixup;
         YR_ARENA_REF jmp_offset_ref;
@@ -3991,11 +3995,11 @@ yyreduce:
         fixup->next = compiler->fixup_stack_head;
         compiler->fixup_stack_head = fixup;
       }
-#line 3995 "libyara/grammar.c"
+#line 3999 "libyara/grammar.c"
     break;
 
   case 104: /* expression: boolean_expression "<or>" $@9 boolean_expression  */
-#line 1977 "libyara/grammar.y"
+#line 1981 "libyara/grammar.y"
       {
         YR_FIXUP* fixup;
 
@@ -4025,11 +4029,11 @@ yyreduce:
           (yyval.expression).required_strings.count = (yyvsp[-3].expression).required_strings.count;
         }
       }
-#line 4029 "libyara/grammar.c"
+#line 4033 "libyara/grammar.c"
     break;
 
   case 105: /* expression: primary_expression "<" primary_expression  */
-#line 2007 "libyara/grammar.y"
+#line 2011 "libyara/grammar.y"
       {
         fail_if_error(yr_parser_reduce_operation(
             yyscanner, "<", (yyvsp[-2].expression), (yyvsp[0].expression)));
@@ -4037,11 +4041,11 @@ yyreduce:
         (yyval.expression).type = EXPRESSION_TYPE_BOOLEAN;
         (yyval.expression).required_strings.count = 0;
       }
-#line 4041 "libyara/grammar.c"
+#line 4045 "libyara/grammar.c"
     break;
 
   case 106: /* expression: primary_expression ">" primary_expression  */
-#line 2015 "libyara/grammar.y"
+#line 2019 "libyara/grammar.y"
       {
         fail_if_error(yr_parser_reduce_operation(
             yyscanner, ">", (yyvsp[-2].expression), (yyvsp[0].expression)));
@@ -4049,11 +4053,11 @@ yyreduce:
         (yyval.expression).type = EXPRESSION_TYPE_BOOLEAN;
         (yyval.expression).required_strings.count = 0;
       }
-#line 4053 "libyara/grammar.c"
+#line 4057 "libyara/grammar.c"
     break;
 
   case 107: /* expression: primary_expression "<=" primary_expression  */
-#line 2023 "libyara/grammar.y"
+#line 2027 "libyara/grammar.y"
       {
         fail_if_error(yr_parser_reduce_operation(
             yyscanner, "<=", (yyvsp[-2].expression), (yyvsp[0].expression)));
@@ -4061,11 +4065,11 @@ yyreduce:
         (yyval.expression).type = EXPRESSION_TYPE_BOOLEAN;
         (yyval.expression).required_strings.count = 0;
       }
-#line 4065 "libyara/grammar.c"
+#line 4069 "libyara/grammar.c"
     break;
 
   case 108: /* expression: primary_expression ">=" primary_expression  */
-#line 2031 "libyara/grammar.y"
+#line 2035 "libyara/grammar.y"
       {
         fail_if_error(yr_parser_reduce_operation(
             yyscanner, ">=", (yyvsp[-2].expression), (yyvsp[0].expression)));
@@ -4073,11 +4077,11 @@ yyreduce:
         (yyval.expression).type = EXPRESSION_TYPE_BOOLEAN;
         (yyval.expression).required_strings.count = 0;
       }
-#line 4077 "libyara/grammar.c"
+#line 4081 "libyara/grammar.c"
     break;
 
   case 109: /* expression: primary_expression "==" primary_expression  */
-#line 2039 "libyara/grammar.y"
+#line 2043 "libyara/grammar.y"
       {
         fail_if_error(yr_parser_reduce_operation(
             yyscanner, "==", (yyvsp[-2].expression), (yyvsp[0].expression)));
@@ -4085,11 +4089,11 @@ yyreduce:
         (yyval.expression).type = EXPRESSION_TYPE_BOOLEAN;
         (yyval.expression).required_strings.count = 0;
       }
-#line 4089 "libyara/grammar.c"
+#line 4093 "libyara/grammar.c"
     break;
 
   case 110: /* expression: primary_expression "!=" primary_expression  */
-#line 2047 "libyara/grammar.y"
+#line 2051 "libyara/grammar.y"
       {
         fail_if_error(yr_parser_reduce_operation(
             yyscanner, "!=", (yyvsp[-2].expression), (yyvsp[0].expression)));
@@ -4097,33 +4101,33 @@ yyreduce:
         (yyval.expression).type = EXPRESSION_TYPE_BOOLEAN;
         (yyval.expression).required_strings.count = 0;
       }
-#line 4101 "libyara/grammar.c"
+#line 4105 "libyara/grammar.c"
     break;
 
   case 111: /* expression: primary_expression  */
-#line 2055 "libyara/grammar.y"
+#line 2059 "libyara/grammar.y"
       {
         (yyval.expression) = (yyvsp[0].expression);
       }
-#line 4109 "libyara/grammar.c"
+#line 4113 "libyara/grammar.c"
     break;
 
   case 112: /* expression: '(' expression ')'  */
-#line 2059 "libyara/grammar.y"
+#line 2063 "libyara/grammar.y"
       {
         (yyval.expression) = (yyvsp[-1].expression);
       }
-#line 4117 "libyara/grammar.c"
+#line 4121 "libyara/grammar.c"
     break;
 
   case 113: /* for_iteration: for_variables "<in>" iterator  */
-#line 2066 "libyara/grammar.y"
+#line 2070 "libyara/grammar.y"
                                   { (yyval.integer) = FOR_ITERATION_ITERATOR; }
-#line 4123 "libyara/grammar.c"
+#line 4127 "libyara/grammar.c"
     break;
 
   case 114: /* for_iteration: "<of>" string_iterator  */
-#line 2068 "libyara/grammar.y"
+#line 2072 "libyara/grammar.y"
       {
         int var_frame;
         int result = ERROR_SUCCESS;
@@ -4144,11 +4148,11 @@ yyreduce:
 
         (yyval.integer) = FOR_ITERATION_STRING_SET;
       }
-#line 4148 "libyara/grammar.c"
+#line 4152 "libyara/grammar.c"
     break;
 
   case 115: /* for_variables: "identifier"  */
-#line 2093 "libyara/grammar.y"
+#line 2097 "libyara/grammar.y"
       {
         int result = ERROR_SUCCESS;
 
@@ -4168,11 +4172,11 @@ yyreduce:
 
         assert(loop_ctx->vars_count <= YR_MAX_LOOP_VARS);
       }
-#line 4172 "libyara/grammar.c"
+#line 4176 "libyara/grammar.c"
     break;
 
   case 116: /* for_variables: for_variables ',' "identifier"  */
-#line 2113 "libyara/grammar.y"
+#line 2117 "libyara/grammar.y"
       {
         int result = ERROR_SUCCESS;
 
@@ -4197,11 +4201,11 @@ yyreduce:
 
         loop_ctx->vars[loop_ctx->vars_count++].identifier.ptr = (yyvsp[0].c_string);
       }
-#line 4201 "libyara/grammar.c"
+#line 4205 "libyara/grammar.c"
     break;
 
   case 117: /* iterator: identifier  */
-#line 2141 "libyara/grammar.y"
+#line 2145 "libyara/grammar.y"
       {
         YR_LOOP_CONTEXT* loop_ctx = &compiler->loop[compiler->loop_index];
 
@@ -4275,11 +4279,11 @@ yyreduce:
 
         fail_if_error(result);
       }
-#line 4279 "libyara/grammar.c"
+#line 4283 "libyara/grammar.c"
     break;
 
   case 118: /* iterator: set  */
-#line 2215 "libyara/grammar.y"
+#line 2219 "libyara/grammar.y"
       {
         int result = ERROR_SUCCESS;
 
@@ -4307,11 +4311,11 @@ yyreduce:
 
         fail_if_error(result);
       }
-#line 4311 "libyara/grammar.c"
+#line 4315 "libyara/grammar.c"
     break;
 
   case 119: /* set: '(' enumeration ')'  */
-#line 2247 "libyara/grammar.y"
+#line 2251 "libyara/grammar.y"
       {
         // $2.count contains the number of items in the enumeration
         fail_if_error(yr_parser_emit_push_const(yyscanner, (yyvsp[-1].enumeration).count));
@@ -4329,22 +4333,22 @@ yyreduce:
 
         (yyval.enumeration).type = (yyvsp[-1].enumeration).type;
       }
-#line 4333 "libyara/grammar.c"
+#line 4337 "libyara/grammar.c"
     break;
 
   case 120: /* set: range  */
-#line 2265 "libyara/grammar.y"
+#line 2269 "libyara/grammar.y"
       {
         fail_if_error(yr_parser_emit(
             yyscanner, OP_ITER_START_INT_RANGE, NULL));
 
         (yyval.enumeration).type = EXPRESSION_TYPE_INTEGER;
       }
-#line 4344 "libyara/grammar.c"
+#line 4348 "libyara/grammar.c"
     break;
 
   case 121: /* range: '(' primary_expression ".." primary_expression ')'  */
-#line 2276 "libyara/grammar.y"
+#line 2280 "libyara/grammar.y"
       {
         int result = ERROR_SUCCESS;
 
@@ -4383,11 +4387,11 @@ yyreduce:
 
         fail_if_error(result);
       }
-#line 4387 "libyara/grammar.c"
+#line 4391 "libyara/grammar.c"
     break;
 
   case 122: /* enumeration: primary_expression  */
-#line 2319 "libyara/grammar.y"
+#line 2323 "libyara/grammar.y"
       {
         int result = ERROR_SUCCESS;
 
@@ -4403,11 +4407,11 @@ yyreduce:
         (yyval.enumeration).type = (yyvsp[0].expression).type;
         (yyval.enumeration).count = 1;
       }
-#line 4407 "libyara/grammar.c"
+#line 4411 "libyara/grammar.c"
     break;
 
   case 123: /* enumeration: enumeration ',' primary_expression  */
-#line 2335 "libyara/grammar.y"
+#line 2339 "libyara/grammar.y"
       {
         int result = ERROR_SUCCESS;
 
@@ -4423,38 +4427,38 @@ yyreduce:
         (yyval.enumeration).type = (yyvsp[-2].enumeration).type;
         (yyval.enumeration).count = (yyvsp[-2].enumeration).count + 1;
       }
-#line 4427 "libyara/grammar.c"
+#line 4431 "libyara/grammar.c"
     break;
 
   case 124: /* string_iterator: string_set  */
-#line 2355 "libyara/grammar.y"
+#line 2359 "libyara/grammar.y"
       {
         fail_if_error(yr_parser_emit_push_const(yyscanner, (yyvsp[0].integer)));
         fail_if_error(yr_parser_emit(yyscanner, OP_ITER_START_STRING_SET,
             NULL));
       }
-#line 4437 "libyara/grammar.c"
+#line 4441 "libyara/grammar.c"
     break;
 
   case 125: /* $@10: %empty  */
-#line 2364 "libyara/grammar.y"
+#line 2368 "libyara/grammar.y"
       {
         // Push end-of-list marker
-        yr_parser_emit_push_const(yyscanner, YR_UNDEFINED);
+        fail_if_error(yr_parser_emit_push_const(yyscanner, YR_UNDEFINED));
       }
-#line 4446 "libyara/grammar.c"
+#line 4450 "libyara/grammar.c"
     break;
 
   case 126: /* string_set: '(' $@10 string_enumeration ')'  */
-#line 2369 "libyara/grammar.y"
+#line 2373 "libyara/grammar.y"
       {
         (yyval.integer) = (yyvsp[-1].integer);
       }
-#line 4454 "libyara/grammar.c"
+#line 4458 "libyara/grammar.c"
     break;
 
   case 127: /* string_set: "<them>"  */
-#line 2373 "libyara/grammar.y"
+#line 2377 "libyara/grammar.y"
       {
         fail_if_error(yr_parser_emit_push_const(yyscanner, YR_UNDEFINED));
 
@@ -4464,23 +4468,23 @@ yyreduce:
 
         (yyval.integer) = count;
       }
-#line 4468 "libyara/grammar.c"
+#line 4472 "libyara/grammar.c"
     break;
 
   case 128: /* string_enumeration: string_enumeration_item  */
-#line 2386 "libyara/grammar.y"
+#line 2390 "libyara/grammar.y"
                               { (yyval.integer) = (yyvsp[0].integer); }
-#line 4474 "libyara/grammar.c"
+#line 4478 "libyara/grammar.c"
     break;
 
   case 129: /* string_enumeration: string_enumeration ',' string_enumeration_item  */
-#line 2387 "libyara/grammar.y"
+#line 2391 "libyara/grammar.y"
                                                      { (yyval.integer) = (yyvsp[-2].integer) + (yyvsp[0].integer); }
-#line 4480 "libyara/grammar.c"
+#line 4484 "libyara/grammar.c"
     break;
 
   case 130: /* string_enumeration_item: "string identifier"  */
-#line 2393 "libyara/grammar.y"
+#line 2397 "libyara/grammar.y"
       {
         int count = 0;
         int result = yr_parser_emit_pushes_for_strings(yyscanner, (yyvsp[0].c_string), &count);
@@ -4490,11 +4494,11 @@ yyreduce:
 
         (yyval.integer) = count;
       }
-#line 4494 "libyara/grammar.c"
+#line 4498 "libyara/grammar.c"
     break;
 
   case 131: /* string_enumeration_item: "string identifier with wildcard"  */
-#line 2403 "libyara/grammar.y"
+#line 2407 "libyara/grammar.y"
       {
         int count = 0;
         int result = yr_parser_emit_pushes_for_strings(yyscanner, (yyvsp[0].c_string), &count);
@@ -4504,40 +4508,40 @@ yyreduce:
 
         (yyval.integer) = count;
       }
-#line 4508 "libyara/grammar.c"
+#line 4512 "libyara/grammar.c"
     break;
 
   case 132: /* $@11: %empty  */
-#line 2417 "libyara/grammar.y"
+#line 2421 "libyara/grammar.y"
       {
         // Push end-of-list marker
-        yr_parser_emit_push_const(yyscanner, YR_UNDEFINED);
+        fail_if_error(yr_parser_emit_push_const(yyscanner, YR_UNDEFINED));
       }
-#line 4517 "libyara/grammar.c"
+#line 4521 "libyara/grammar.c"
     break;
 
   case 133: /* rule_set: '(' $@11 rule_enumeration ')'  */
-#line 2422 "libyara/grammar.y"
+#line 2426 "libyara/grammar.y"
       {
         (yyval.integer) = (yyvsp[-1].integer);
       }
-#line 4525 "libyara/grammar.c"
+#line 4529 "libyara/grammar.c"
     break;
 
   case 134: /* rule_enumeration: rule_enumeration_item  */
-#line 2429 "libyara/grammar.y"
+#line 2433 "libyara/grammar.y"
                             { (yyval.integer) = (yyvsp[0].integer); }
-#line 4531 "libyara/grammar.c"
+#line 4535 "libyara/grammar.c"
     break;
 
   case 135: /* rule_enumeration: rule_enumeration ',' rule_enumeration_item  */
-#line 2430 "libyara/grammar.y"
+#line 2434 "libyara/grammar.y"
                                                  { (yyval.integer) = (yyvsp[-2].integer) + (yyvsp[0].integer); }
-#line 4537 "libyara/grammar.c"
+#line 4541 "libyara/grammar.c"
     break;
 
   case 136: /* rule_enumeration_item: "identifier"  */
-#line 2436 "libyara/grammar.y"
+#line 2440 "libyara/grammar.y"
       {
         int result = ERROR_SUCCESS;
 
@@ -4570,11 +4574,11 @@ yyreduce:
 
         (yyval.integer) = 1;
       }
-#line 4574 "libyara/grammar.c"
+#line 4578 "libyara/grammar.c"
     break;
 
   case 137: /* rule_enumeration_item: "identifier" '*'  */
-#line 2469 "libyara/grammar.y"
+#line 2473 "libyara/grammar.y"
       {
         int count = 0;
         YR_NAMESPACE* ns = (YR_NAMESPACE*) yr_arena_get_ptr(
@@ -4582,24 +4586,26 @@ yyreduce:
             YR_NAMESPACES_TABLE,
             compiler->current_namespace_idx * sizeof(struct YR_NAMESPACE));
 
-        yr_hash_table_add_uint32(
+        int result = yr_hash_table_add_uint32(
             compiler->wildcard_identifiers_table,
             (yyvsp[-1].c_string),
             ns->name,
             1);
 
-        int result = yr_parser_emit_pushes_for_rules(yyscanner, (yyvsp[-1].c_string), &count);
+        if (result == ERROR_SUCCESS)
+          result = yr_parser_emit_pushes_for_rules(yyscanner, (yyvsp[-1].c_string), &count);
+
         yr_free((yyvsp[-1].c_string));
 
         fail_if_error(result);
 
         (yyval.integer) = count;
       }
-#line 4599 "libyara/grammar.c"
+#line 4605 "libyara/grammar.c"
     break;
 
   case 138: /* for_expression: primary_expression  */
-#line 2494 "libyara/grammar.y"
+#line 2500 "libyara/grammar.y"
       {
         if ((yyvsp[0].expression).type == EXPRESSION_TYPE_INTEGER && !IS_UNDEFINED((yyvsp[0].expression).value.integer))
         {
@@ -4655,57 +4661,57 @@ yyreduce:
 
         (yyval.expression).value.integer = (yyvsp[0].expression).value.integer;
       }
-#line 4659 "libyara/grammar.c"
+#line 4665 "libyara/grammar.c"
     break;
 
   case 139: /* for_expression: for_quantifier  */
-#line 2550 "libyara/grammar.y"
+#line 2556 "libyara/grammar.y"
       {
         (yyval.expression).value.integer = (yyvsp[0].expression).value.integer;
       }
-#line 4667 "libyara/grammar.c"
+#line 4673 "libyara/grammar.c"
     break;
 
   case 140: /* for_quantifier: "<all>"  */
-#line 2557 "libyara/grammar.y"
+#line 2563 "libyara/grammar.y"
       {
-        yr_parser_emit_push_const(yyscanner, YR_UNDEFINED);
+        fail_if_error(yr_parser_emit_push_const(yyscanner, YR_UNDEFINED));
         (yyval.expression).type = EXPRESSION_TYPE_QUANTIFIER;
         (yyval.expression).value.integer = FOR_EXPRESSION_ALL;
      }
-#line 4677 "libyara/grammar.c"
+#line 4683 "libyara/grammar.c"
     break;
 
   case 141: /* for_quantifier: "<any>"  */
-#line 2563 "libyara/grammar.y"
+#line 2569 "libyara/grammar.y"
       {
-        yr_parser_emit_push_const(yyscanner, 1);
+        fail_if_error(yr_parser_emit_push_const(yyscanner, 1));
         (yyval.expression).type = EXPRESSION_TYPE_QUANTIFIER;
         (yyval.expression).value.integer = FOR_EXPRESSION_ANY;
       }
-#line 4687 "libyara/grammar.c"
+#line 4693 "libyara/grammar.c"
     break;
 
   case 142: /* for_quantifier: "<none>"  */
-#line 2569 "libyara/grammar.y"
+#line 2575 "libyara/grammar.y"
       {
-        yr_parser_emit_push_const(yyscanner, 0);
+        fail_if_error(yr_parser_emit_push_const(yyscanner, 0));
         (yyval.expression).type = EXPRESSION_TYPE_QUANTIFIER;
         (yyval.expression).value.integer = FOR_EXPRESSION_NONE;
       }
-#line 4697 "libyara/grammar.c"
+#line 4703 "libyara/grammar.c"
     break;
 
   case 143: /* primary_expression: '(' primary_expression ')'  */
-#line 2579 "libyara/grammar.y"
+#line 2585 "libyara/grammar.y"
       {
         (yyval.expression) = (yyvsp[-1].expression);
       }
-#line 4705 "libyara/grammar.c"
+#line 4711 "libyara/grammar.c"
     break;
 
   case 144: /* primary_expression: "<filesize>"  */
-#line 2583 "libyara/grammar.y"
+#line 2589 "libyara/grammar.y"
       {
         fail_if_error(yr_parser_emit(
             yyscanner, OP_FILESIZE, NULL));
@@ -4713,11 +4719,11 @@ yyreduce:
         (yyval.expression).type = EXPRESSION_TYPE_INTEGER;
         (yyval.expression).value.integer = YR_UNDEFINED;
       }
-#line 4717 "libyara/grammar.c"
+#line 4723 "libyara/grammar.c"
     break;
 
   case 145: /* primary_expression: "<entrypoint>"  */
-#line 2591 "libyara/grammar.y"
+#line 2597 "libyara/grammar.y"
       {
         yywarning(yyscanner,
             "using deprecated \"entrypoint\" keyword. Use the \"entry_point\" "
@@ -4729,11 +4735,11 @@ yyreduce:
         (yyval.expression).type = EXPRESSION_TYPE_INTEGER;
         (yyval.expression).value.integer = YR_UNDEFINED;
       }
-#line 4733 "libyara/grammar.c"
+#line 4739 "libyara/grammar.c"
     break;
 
   case 146: /* primary_expression: "integer function" '(' primary_expression ')'  */
-#line 2603 "libyara/grammar.y"
+#line 2609 "libyara/grammar.y"
       {
         check_type((yyvsp[-1].expression), EXPRESSION_TYPE_INTEGER, "intXXXX or uintXXXX");
 
@@ -4747,33 +4753,33 @@ yyreduce:
         (yyval.expression).type = EXPRESSION_TYPE_INTEGER;
         (yyval.expression).value.integer = YR_UNDEFINED;
       }
-#line 4751 "libyara/grammar.c"
+#line 4757 "libyara/grammar.c"
     break;
 
   case 147: /* primary_expression: "integer number"  */
-#line 2617 "libyara/grammar.y"
+#line 2623 "libyara/grammar.y"
       {
         fail_if_error(yr_parser_emit_push_const(yyscanner, (yyvsp[0].integer)));
 
         (yyval.expression).type = EXPRESSION_TYPE_INTEGER;
         (yyval.expression).value.integer = (yyvsp[0].integer);
       }
-#line 4762 "libyara/grammar.c"
+#line 4768 "libyara/grammar.c"
     break;
 
   case 148: /* primary_expression: "floating point number"  */
-#line 2624 "libyara/grammar.y"
+#line 2630 "libyara/grammar.y"
       {
         fail_if_error(yr_parser_emit_with_arg_double(
             yyscanner, OP_PUSH, (yyvsp[0].double_), NULL, NULL));
 
         (yyval.expression).type = EXPRESSION_TYPE_FLOAT;
       }
-#line 4773 "libyara/grammar.c"
+#line 4779 "libyara/grammar.c"
     break;
 
   case 149: /* primary_expression: "text string"  */
-#line 2631 "libyara/grammar.y"
+#line 2637 "libyara/grammar.y"
       {
         YR_ARENA_REF ref;
 
@@ -4798,11 +4804,11 @@ yyreduce:
         (yyval.expression).type = EXPRESSION_TYPE_STRING;
         (yyval.expression).value.sized_string_ref = ref;
       }
-#line 4802 "libyara/grammar.c"
+#line 4808 "libyara/grammar.c"
     break;
 
   case 150: /* primary_expression: "string count" "<in>" range  */
-#line 2656 "libyara/grammar.y"
+#line 2662 "libyara/grammar.y"
       {
         int result = yr_parser_reduce_string_identifier(
             yyscanner, (yyvsp[-2].c_string), OP_COUNT_IN, YR_UNDEFINED);
@@ -4814,11 +4820,11 @@ yyreduce:
         (yyval.expression).type = EXPRESSION_TYPE_INTEGER;
         (yyval.expression).value.integer = YR_UNDEFINED;
       }
-#line 4818 "libyara/grammar.c"
+#line 4824 "libyara/grammar.c"
     break;
 
   case 151: /* primary_expression: "string count"  */
-#line 2668 "libyara/grammar.y"
+#line 2674 "libyara/grammar.y"
       {
         int result = yr_parser_reduce_string_identifier(
             yyscanner, (yyvsp[0].c_string), OP_COUNT, YR_UNDEFINED);
@@ -4830,11 +4836,11 @@ yyreduce:
         (yyval.expression).type = EXPRESSION_TYPE_INTEGER;
         (yyval.expression).value.integer = YR_UNDEFINED;
       }
-#line 4834 "libyara/grammar.c"
+#line 4840 "libyara/grammar.c"
     break;
 
   case 152: /* primary_expression: "string offset" '[' primary_expression ']'  */
-#line 2680 "libyara/grammar.y"
+#line 2686 "libyara/grammar.y"
       {
         int result = yr_parser_reduce_string_identifier(
             yyscanner, (yyvsp[-3].c_string), OP_OFFSET, YR_UNDEFINED);
@@ -4846,11 +4852,11 @@ yyreduce:
         (yyval.expression).type = EXPRESSION_TYPE_INTEGER;
         (yyval.expression).value.integer = YR_UNDEFINED;
       }
-#line 4850 "libyara/grammar.c"
+#line 4856 "libyara/grammar.c"
     break;
 
   case 153: /* primary_expression: "string offset"  */
-#line 2692 "libyara/grammar.y"
+#line 2698 "libyara/grammar.y"
       {
         int result = yr_parser_emit_push_const(yyscanner, 1);
 
@@ -4865,11 +4871,11 @@ yyreduce:
         (yyval.expression).type = EXPRESSION_TYPE_INTEGER;
         (yyval.expression).value.integer = YR_UNDEFINED;
       }
-#line 4869 "libyara/grammar.c"
+#line 4875 "libyara/grammar.c"
     break;
 
   case 154: /* primary_expression: "string length" '[' primary_expression ']'  */
-#line 2707 "libyara/grammar.y"
+#line 2713 "libyara/grammar.y"
       {
         int result = yr_parser_reduce_string_identifier(
             yyscanner, (yyvsp[-3].c_string), OP_LENGTH, YR_UNDEFINED);
@@ -4881,11 +4887,11 @@ yyreduce:
         (yyval.expression).type = EXPRESSION_TYPE_INTEGER;
         (yyval.expression).value.integer = YR_UNDEFINED;
       }
-#line 4885 "libyara/grammar.c"
+#line 4891 "libyara/grammar.c"
     break;
 
   case 155: /* primary_expression: "string length"  */
-#line 2719 "libyara/grammar.y"
+#line 2725 "libyara/grammar.y"
       {
         int result = yr_parser_emit_push_const(yyscanner, 1);
 
@@ -4900,11 +4906,11 @@ yyreduce:
         (yyval.expression).type = EXPRESSION_TYPE_INTEGER;
         (yyval.expression).value.integer = YR_UNDEFINED;
       }
-#line 4904 "libyara/grammar.c"
+#line 4910 "libyara/grammar.c"
     break;
 
   case 156: /* primary_expression: identifier  */
-#line 2734 "libyara/grammar.y"
+#line 2740 "libyara/grammar.y"
       {
         int result = ERROR_SUCCESS;
 
@@ -4949,11 +4955,11 @@ yyreduce:
 
         fail_if_error(result);
       }
-#line 4953 "libyara/grammar.c"
+#line 4959 "libyara/grammar.c"
     break;
 
   case 157: /* primary_expression: '-' primary_expression  */
-#line 2779 "libyara/grammar.y"
+#line 2785 "libyara/grammar.y"
       {
         int result = ERROR_SUCCESS;
 
@@ -4974,11 +4980,11 @@ yyreduce:
 
         fail_if_error(result);
       }
-#line 4978 "libyara/grammar.c"
+#line 4984 "libyara/grammar.c"
     break;
 
   case 158: /* primary_expression: primary_expression '+' primary_expression  */
-#line 2800 "libyara/grammar.y"
+#line 2806 "libyara/grammar.y"
       {
         int result = yr_parser_reduce_operation(
             yyscanner, "+", (yyvsp[-2].expression), (yyvsp[0].expression));
@@ -5013,11 +5019,11 @@ yyreduce:
 
         fail_if_error(result);
       }
-#line 5017 "libyara/grammar.c"
+#line 5023 "libyara/grammar.c"
     break;
 
   case 159: /* primary_expression: primary_expression '-' primary_expression  */
-#line 2835 "libyara/grammar.y"
+#line 2841 "libyara/grammar.y"
       {
         int result = yr_parser_reduce_operation(
             yyscanner, "-", (yyvsp[-2].expression), (yyvsp[0].expression));
@@ -5052,11 +5058,11 @@ yyreduce:
 
         fail_if_error(result);
       }
-#line 5056 "libyara/grammar.c"
+#line 5062 "libyara/grammar.c"
     break;
 
   case 160: /* primary_expression: primary_expression '*' primary_expression  */
-#line 2870 "libyara/grammar.y"
+#line 2876 "libyara/grammar.y"
       {
         int result = yr_parser_reduce_operation(
             yyscanner, "*", (yyvsp[-2].expression), (yyvsp[0].expression));
@@ -5090,11 +5096,11 @@ yyreduce:
 
         fail_if_error(result);
       }
-#line 5094 "libyara/grammar.c"
+#line 5100 "libyara/grammar.c"
     break;
 
   case 161: /* primary_expression: primary_expression '\\' primary_expression  */
-#line 2904 "libyara/grammar.y"
+#line 2910 "libyara/grammar.y"
       {
         int result = yr_parser_reduce_operation(
             yyscanner, "\\", (yyvsp[-2].expression), (yyvsp[0].expression));
@@ -5124,11 +5130,11 @@ yyreduce:
 
         fail_if_error(result);
       }
-#line 5128 "libyara/grammar.c"
+#line 5134 "libyara/grammar.c"
     break;
 
   case 162: /* primary_expression: primary_expression '%' primary_expression  */
-#line 2934 "libyara/grammar.y"
+#line 2940 "libyara/grammar.y"
       {
         check_type((yyvsp[-2].expression), EXPRESSION_TYPE_INTEGER, "%");
         check_type((yyvsp[0].expression), EXPRESSION_TYPE_INTEGER, "%");
@@ -5150,11 +5156,11 @@ yyreduce:
           fail_if_error(ERROR_DIVISION_BY_ZERO);
         }
       }
-#line 5154 "libyara/grammar.c"
+#line 5160 "libyara/grammar.c"
     break;
 
   case 163: /* primary_expression: primary_expression '^' primary_expression  */
-#line 2956 "libyara/grammar.y"
+#line 2962 "libyara/grammar.y"
       {
         check_type((yyvsp[-2].expression), EXPRESSION_TYPE_INTEGER, "^");
         check_type((yyvsp[0].expression), EXPRESSION_TYPE_INTEGER, "^");
@@ -5164,11 +5170,11 @@ yyreduce:
         (yyval.expression).type = EXPRESSION_TYPE_INTEGER;
         (yyval.expression).value.integer = OPERATION(^, (yyvsp[-2].expression).value.integer, (yyvsp[0].expression).value.integer);
       }
-#line 5168 "libyara/grammar.c"
+#line 5174 "libyara/grammar.c"
     break;
 
   case 164: /* primary_expression: primary_expression '&' primary_expression  */
-#line 2966 "libyara/grammar.y"
+#line 2972 "libyara/grammar.y"
       {
         check_type((yyvsp[-2].expression), EXPRESSION_TYPE_INTEGER, "^");
         check_type((yyvsp[0].expression), EXPRESSION_TYPE_INTEGER, "^");
@@ -5178,11 +5184,11 @@ yyreduce:
         (yyval.expression).type = EXPRESSION_TYPE_INTEGER;
         (yyval.expression).value.integer = OPERATION(&, (yyvsp[-2].expression).value.integer, (yyvsp[0].expression).value.integer);
       }
-#line 5182 "libyara/grammar.c"
+#line 5188 "libyara/grammar.c"
     break;
 
   case 165: /* primary_expression: primary_expression '|' primary_expression  */
-#line 2976 "libyara/grammar.y"
+#line 2982 "libyara/grammar.y"
       {
         check_type((yyvsp[-2].expression), EXPRESSION_TYPE_INTEGER, "|");
         check_type((yyvsp[0].expression), EXPRESSION_TYPE_INTEGER, "|");
@@ -5192,11 +5198,11 @@ yyreduce:
         (yyval.expression).type = EXPRESSION_TYPE_INTEGER;
         (yyval.expression).value.integer = OPERATION(|, (yyvsp[-2].expression).value.integer, (yyvsp[0].expression).value.integer);
       }
-#line 5196 "libyara/grammar.c"
+#line 5202 "libyara/grammar.c"
     break;
 
   case 166: /* primary_expression: '~' primary_expression  */
-#line 2986 "libyara/grammar.y"
+#line 2992 "libyara/grammar.y"
       {
         check_type((yyvsp[0].expression), EXPRESSION_TYPE_INTEGER, "~");
 
@@ -5206,11 +5212,11 @@ yyreduce:
         (yyval.expression).value.integer = ((yyvsp[0].expression).value.integer == YR_UNDEFINED) ?
             YR_UNDEFINED : ~((yyvsp[0].expression).value.integer);
       }
-#line 5210 "libyara/grammar.c"
+#line 5216 "libyara/grammar.c"
     break;
 
   case 167: /* primary_expression: primary_expression "<<" primary_expression  */
-#line 2996 "libyara/grammar.y"
+#line 3002 "libyara/grammar.y"
       {
         int result;
 
@@ -5230,11 +5236,11 @@ yyreduce:
 
         fail_if_error(result);
       }
-#line 5234 "libyara/grammar.c"
+#line 5240 "libyara/grammar.c"
     break;
 
   case 168: /* primary_expression: primary_expression ">>" primary_expression  */
-#line 3016 "libyara/grammar.y"
+#line 3022 "libyara/grammar.y"
       {
         int result;
 
@@ -5254,19 +5260,19 @@ yyreduce:
 
         fail_if_error(result);
       }
-#line 5258 "libyara/grammar.c"
+#line 5264 "libyara/grammar.c"
     break;
 
   case 169: /* primary_expression: regexp  */
-#line 3036 "libyara/grammar.y"
+#line 3042 "libyara/grammar.y"
       {
         (yyval.expression) = (yyvsp[0].expression);
       }
-#line 5266 "libyara/grammar.c"
+#line 5272 "libyara/grammar.c"
     break;
 
 
-#line 5270 "libyara/grammar.c"
+#line 5276 "libyara/grammar.c"
 
       default: break;
     }
@@ -5490,5 +5496,5 @@ yyreturnlab:
   return yyresult;
 }
 
-#line 3041 "libyara/grammar.y"
+#line 3047 "libyara/grammar.y"
 
